@@ -129,12 +129,12 @@ package jet
 // Parsed templates and their nodes are written only by the parser (methods of *Template, the constructors and the
 // few node helpers they call); a Set is written only while it is constructed.
 //@ frame {C11,C10} stores-any Template only-in (*Set).parse, (*Template).addBlocks, (*Template).next, (*Template).backup, (*Template).backup2, (*Template).backup3, (*Template).peek, (*Template).errorf, (*Template).parseTemplate, (*Template).startParse, (*Template).stopParse, (*Template).parseBlock
-//@ frame {C11,C10} stores-any *Node only-in (*Template).*, (*ListNode).append, (*PipeNode).append, (*ChainNode).Add, (*NumberNode).simplifyComplex, (*CommandNode).append
+//@ frame {C11,C10,C20} stores-any *Node only-in (*Template).*, (*ListNode).append, (*PipeNode).append, (*ChainNode).Add, (*NumberNode).simplifyComplex, (*CommandNode).append
 //@ frame {C11,C10} stores-any NodeBase only-in (*Template).*
 // a template becomes visible to other goroutines (the cache) only from getTemplate, after parse has returned it complete
 //@ frame {C11,C16} calls (Cache).Put only-in (*Set).getTemplate
 // block tables are filled by the parser only; the interpreter shares them between executions and only reads them
-//@ frame {C11,C10,C08} stores-map map[string]*BlockNode only-in (*Template).addBlocks, (*Template).parseBlock
+//@ frame {C11,C10,C08,C09} stores-map map[string]*BlockNode only-in (*Template).addBlocks, (*Template).parseBlock
 //@ frame {C11,C10} stores-any CallArgs only-in (*Template).*, (*CommandNode).append
 //@ frame {C11,C10} stores-any BlockParameterList only-in (*Template).*
 //@ frame {C11} stores-any Set only-in NewSet, WithCache, WithSafeWriter, WithDelims, WithCommentDelims, WithTemplateNameExtensions, DevelopmentMode, (*Set).AddGlobal
